@@ -106,6 +106,9 @@ def gen_plan(rng: random.Random, tier: str) -> dict:
             k += 1
             steps.append({"at": t, "op": "csend", "tag": k, "reliable": rng.random() < 0.75,
                           "via": rng.choice(["send", "send_reliable"])})
+            if rng.random() < 0.15:
+                # whoever awaited the reliable send gives up (outer timeout) while it is still unacked
+                steps[-1]["abandon_after"] = rng.choice([0.0, 0.05, resend_every * 1.5])
     return {"property": PROPERTY, "cfg": cfg, "steps": steps}
 
 
@@ -414,6 +417,13 @@ def run_plan(plan: dict) -> RunResult:
                         rec["failed_tx"] = rec["transmissions"]
                         rec["failed_exc"] = type(exc).__name__
                 fut.add_done_callback(_done)
+                if st.get("abandon_after") is not None:
+                    def _abandon(fut=fut, rec=rec):
+                        if not fut.done():
+                            res.fault("awaiter_gave_up")
+                            fut.cancel()
+                            rec["future"] = None      # nobody is waiting any more; acks and resends go on as usual
+                    loop.call_later(st["abandon_after"], _abandon)
 
         def op_reconnect(st):
             res.fault("circuit_reopened")
